@@ -1276,6 +1276,13 @@ impl Formatter {
         let mut s = input.as_ref().as_bytes();
 
         let mut dt = NaiveDateTime::new();
+        // An interval field the picture omits is zero (dates default to year 1 / day 1).
+        if T::IS_INTERVAL_YM {
+            dt.year = 0;
+        }
+        if T::IS_INTERVAL_DT {
+            dt.day = 0;
+        }
 
         macro_rules! expect_char {
             ($ch: expr) => {{
